@@ -67,10 +67,11 @@ CHECKS.update({
 })
 
 CHECKS.update({
-    "C04": dict(category="proof", technique="Lean 4 theorems: componentwise correct rounding of complex add/sub/mul/mul_mpf/mul_int/neg/pos/square(re) on the proved real core + bit-exact correspondence of libmpc with the Lean model + exact rational decisions",
+    "C04": dict(category="proof", technique="Lean 4 theorems: componentwise correct rounding of complex add/sub/mul/mul_mpf/mul_int/neg/pos/square(re) and of z**n in the exact regime (power in Z[i] by loop invariant), componentwise relative error bounds for z/w, 1/z, p/z and z**(-m) on the proved real core + bit-exact correspondence of libmpc with the Lean model + exact rational decisions",
                 text="Theorems (components of any length, all precisions, five modes): each part of z+w, z-w, z*w (four exact products, one rounding), z*x, z*n, -z, +z is THE correctly rounded exact component. "
-                     "mpc_div/reciprocal/pow_int/abs/floor... are modelled bit-exactly and their accuracy clauses are decided per case in exact arithmetic. z+x (x real) is proved to leave the imaginary part unrounded (known finding F3).",
-                note=TB + "Division and negative powers: relative-error clause sampled with an exact oracle, not proved. The last fallback of mpc_pow_int (exp/log) is outside the model."),
+                     "z**n (both components nonzero, n >= 3, n*(|e_a-e_b|+max bc) < 10000): both components correctly rounded (Props/C04pow.lean). z/w, 1/z, p/z: EACH component within 2^(2-prec) relative of the exact component, for all operands, precisions >= 1 and modes (Props/C04div.lean; modulus form as corollary); z**(-m) in the exact regime, prec >= 3: each component within 6*2^-prec (Props/C04powneg.lean). "
+                     "All of mpc_div/reciprocal/pow_int/abs/floor... are also modelled bit-exactly and their accuracy clauses decided per case in exact arithmetic. z+x (x real) is proved to leave the imaginary part unrounded (known finding F3).",
+                note=TB + "Not proved: z**n on the axes (goes through mpf_pow_int: C03, finding F1) and beyond the exact regime (the exp/log fallback of mpc_pow_int is outside the model); mpc equality with Python numbers is tied by correspondence only."),
     "C07": dict(category="proof", technique="Lean 4 model of str_to_man_exp/from_str/mpi_from_str + theorems (parse_value for the float() grammar, exact-branch correct rounding, interval forms contain the denoted range) + bit-exact correspondence + exact decimal decisions",
                 text="Theorems: for every literal of the float() grammar man*10^exp equals the decimal value (incl. underscores and '.0' forms after the repairs); in the exact branch (|decimal exponent| <= 400) from_str returns THE correctly rounded value in all modes "
                      "(unconditional, on the proved from_int/from_rational); each of the five interval string forms contains the denoted number/range given directed endpoint conversions. The approximate branch is proved NOT correctly rounded on concrete witnesses (known finding D4). "
@@ -96,15 +97,15 @@ CHECKS.update({
     "C13": dict(category="translation_validation", technique="Lean theorems (point enclosure => exact value; integer root-exactness test; sinpi/cospi table) + verified evaluator as oracle on sampled exact cases",
                 text="Exactness of exp(0), log(1), sqrt/cbrt/root of perfect powers, sinpi/cospi at half-integers, powm1 = 0 iff x^y = 1, finiteness of tan/cot/sec/csc near k*pi/2 and the inf/nan limit table are decided with the verified evaluator and exact integer tests whose soundness is proved in Lean.",
                 note=TB + "Sampled exact cases; sqrt exactness of the core is additionally covered by C02's correspondence."),
-    "C14": dict(category="proof", technique="Lean 4 containment theorems for interval add/sub/neg/pos/mul/abs/square (all sign cases) and sqrt (over the reals) on the proved directed-rounding core + bit-exact correspondence of libmpi with the Lean model + exact and verified-enclosure decisions on sample points",
+    "C14": dict(category="proof", technique="Lean 4 containment theorems for interval add/sub/neg/pos/mul/abs/square/division/integer powers (all sign cases) and sqrt (over the reals) on the proved directed-rounding core + bit-exact correspondence of libmpi with the Lean model + exact and verified-enclosure decisions on sample points",
                 text="Theorems (finite endpoints of any length, every precision): x in s, y in t => x+y, x-y, -x, x, x*y, |x|, x^2 lie in the result interval, which is again well-formed (multiplication: the degenerate, the six sign cases and the four-product general case; abs and square: "
-                     "the three sign cases each); sqrt x lies between the endpoints of mpi_sqrt for nonnegative intervals (endpoints are THE floor/ceiling roundings of the real roots). mpi_div/pow_int/conversions and infinite endpoints are modelled bit-exactly and decided on sample points; "
+                     "the three sign cases each); sqrt x lies between the endpoints of mpi_sqrt for nonnegative intervals (endpoints are THE floor/ceiling roundings of the real roots); x/y for a divisor interval excluding 0; x^n for EVERY n >= 0 (odd, even on nonnegative / nonpositive / zero-straddling intervals; from the never-past-the-exact-value theorem of mpf_pow_int) and 1/I^n when the power interval excludes 0 (Props/C14pow.lean). Conversions and infinite endpoints are modelled bit-exactly and decided on sample points; "
                      "exp/log/sin/cos/tan/cot/sec/csc/atan/atan2/real ** are decided against Lean-verified enclosures on structured and steered samples.",
-                note=TB + "Partial: infinite endpoints, division, powers, string conversion and the transcendental functions are decided per case, not proved; gamma family only at closed-form points."),
-    "C15": dict(category="proof", technique="Lean 4 containment theorems for complex rectangle add/sub/neg/pos/mul (from the proved real interval operations) + bit-exact model of the other mpci_* + exact and verified-enclosure decisions on sample points",
+                note=TB + "Partial: infinite endpoints, division by intervals containing 0, real exponents, string conversion and the transcendental functions are decided per case, not proved; gamma family only at closed-form points."),
+    "C15": dict(category="proof", technique="Lean 4 containment theorems for complex rectangle add/sub/neg/pos/mul/div/abs/square/integer powers (from the proved real interval operations; binary-powering loop invariant) + bit-exact model of the mpci_* + exact and verified-enclosure decisions on sample points",
                 text="Theorems (Props/C15.lean): for rectangles with finite canonical endpoints of any bit length and every precision, mpci_add/sub/neg/pos/mul return well-formed rectangles containing z op w for every z, w in the operands. "
-                     "mpci_div/abs/square/pow_int are modelled following the code and compared bit for bit, with exact sample-point containment decisions; mpc exp/log/cos/sin/abs/arg are decided on sample points from verified real enclosures combined in exact rational arithmetic.",
-                note=TB + "Division, powers, abs and the transcendental functions are sampled (no theorem); mpci_pow with non-integer exponents is not covered; complex gamma only at closed-form points."),
+                     "mpci_div (whenever the code's enclosure of |w|^2 is positive: Props/C15div.lean), mpci_abs (sqrt(x^2+y^2) over the reals between the returned endpoints, and the axis branches: Props/C15abs.lean), mpci_square and mpci_pow_int for EVERY n >= 0 ((x+iy)^n in the result; negative n through the division theorem: Props/C15pow.lean). All mpci_* are also compared bit for bit with the model, with exact sample-point containment decisions; mpc exp/log/cos/sin/abs/arg are decided on sample points from verified real enclosures combined in exact rational arithmetic.",
+                note=TB + "The transcendental functions are sampled (no theorem); mpci_pow with non-integer exponents is not covered; complex gamma only at closed-form points; infinite endpoints by correspondence only."),
     "C16": dict(category="proof", technique="Lean 4 theorems: interval comparisons are sound and complete three-valued predicates (on the proved mpf_cmp) + bit-exact correspondence incl. ctx_iv operators",
                 text="Theorems (finite endpoints): mpi_lt/le answer True iff the relation holds for every pair of members, False iff it fails for every pair (hence None exactly otherwise); gt/ge are the mirrored predicates; == compares endpoint values exactly; interval-in-interval containment. "
                      "Operators of ivmpf/ivmpc incl. number operands and infinite endpoints are modelled and compared bit for bit and decided on sample points.",
